@@ -69,6 +69,7 @@ ASSUMPTIONS = [
     "the reference is the implementation's own cold fit (its correctness is C02/C06/C07)",
 ]
 RULE = RULE + " " + vforms.RULE_SUFFIX
+RULE = RULE + " " + 'Relative thresholds of a link are 0.9 x the smallest score ratio of the single cold fit (not reached there); VoronoiFPS chains contain a cold refit refused for an illegal switching point; thorough tier: two chains 32700 -> 32800 selections on 33000 points.'
 KINDS = ("gauss", "uniform", "scaled1", "clustered1", "lattice_wide")
 
 
